@@ -20,7 +20,23 @@ pub struct Case {
     /// identification (kernels are ELF images), 3 "MZ" (PE), 4 a.out-ish word
     #[serde(default)]
     pub prefix: u8,
+    /// (position, kind) of planted look-alikes that are not the magic: 0 the
+    /// header as a big-endian machine would store it (byte-swapped magic,
+    /// big-endian architecture 4 and length), 1 byte-swapped magic + zero
+    /// architecture, 2 the boot-information magic, 3 the Multiboot 1 magic,
+    /// 4 the magic's first three bytes, 5 its last three
+    #[serde(default)]
+    pub decoys: Vec<(usize, u8)>,
 }
+
+const DECOYS: [&[u8]; 6] = [
+    &[0xe8, 0x52, 0x50, 0xd6, 0, 0, 0, 4, 0, 0, 0, 24],
+    &[0xe8, 0x52, 0x50, 0xd6, 0, 0, 0, 0, 0, 0, 0, 16],
+    &[0x89, 0x62, 0xd7, 0x36, 0, 0, 0, 0],
+    &[0x02, 0xb0, 0xad, 0x1b, 0, 0, 0, 0],
+    &[0xd6, 0x50, 0x52],
+    &[0x50, 0x52, 0xe8],
+];
 
 const PREFIXES: [&[u8]; 5] = [&[], &[0x7f, b'E', b'L', b'F', 1, 1, 1, 0], &[0x7f, b'E', b'L', b'F', 2, 1, 1, 0], b"MZ\x90\x00", &[0x07, 0x01, 0x64, 0x00]];
 
@@ -37,6 +53,13 @@ pub fn buffer(c: &Case) -> Vec<u8> {
     for (k, b) in PREFIXES[c.prefix as usize % PREFIXES.len()].iter().enumerate() {
         if k < v.len() {
             v[k] = *b;
+        }
+    }
+    for (pos, kind) in &c.decoys {
+        for (k, b) in DECOYS[*kind as usize % DECOYS.len()].iter().enumerate() {
+            if pos + k < v.len() {
+                v[pos + k] = *b;
+            }
         }
     }
     for (pos, l) in &c.plants {
@@ -148,6 +171,71 @@ pub fn eval(c: &Case, obs: &mut Obs) -> Result<(), String> {
     }
 }
 
+// --- several searches in one process ------------------------------------------------
+
+#[derive(Clone, Debug, Serialize, Deserialize)]
+pub struct SeqCase {
+    pub searches: Vec<Case>,
+}
+
+/// Searches run one after the other in the same process (no sandbox: the
+/// buffers are ordinary heap memory): every result must be what the
+/// reference search gives for that buffer alone, whatever was searched before.
+pub fn eval_seq(c: &SeqCase, obs: &mut Obs) -> Result<(), String> {
+    let mut founds = 0;
+    for (i, s) in c.searches.iter().enumerate() {
+        if s.len > 1 << 16 {
+            return Err("malformed case".into());
+        }
+        let b = buffer(s);
+        let want = model(&b);
+        let a = Aligned::new(&b);
+        let t = run(a.as_ptr(), b.len());
+        let ok = match (&want, t.get("r")) {
+            (Want::NoHeader, Some(Val::None)) => true,
+            (Want::SomeErr, Some(Val::Err(_))) => true,
+            (Want::Found(i, l), Some(Val::Ext(o, n))) => o == i && n == l && t.get("idx") == Some(&Val::U(*i as u64)),
+            _ => false,
+        };
+        if matches!(want, Want::Found(..)) {
+            founds += 1;
+        }
+        if !ok {
+            return Err(format!("search {} of {} in one process: buffer of {} bytes, plants {:?}: expected {want:?}, got {}", i + 1, c.searches.len(), s.len, s.plants, t.render().replace('\n', " ")));
+        }
+    }
+    obs.class(format!("found-{}", founds.min(3)));
+    if founds >= 1 && c.searches.len() >= 2 {
+        obs.nontrivial(fnv(format!("{:?}", c.searches).as_bytes()));
+        obs.sample(json!({"searches": c.searches.len(), "successful": founds}));
+    }
+    Ok(())
+}
+
+fn strategy_seq(ctx: &Ctx) -> BoxedStrategy<SeqCase> {
+    // short buffers with one or two aligned headers at small offsets, so that
+    // offsets found earlier recur in later buffers
+    let one = (8usize..160, any::<u64>(), proptest::collection::vec((0usize..16, 0u8..3), 0..=2)).prop_map(|(len, key, pl)| {
+        let plants = pl
+            .into_iter()
+            .filter_map(|(slot, lm)| {
+                let pos = 8 * slot;
+                if pos + 16 > len {
+                    return None;
+                }
+                let room = (len - pos) as u32;
+                Some((pos, match lm {
+                    0 => 16,
+                    1 => room,
+                    _ => room + 8,
+                }))
+            })
+            .collect();
+        Case { len, key: key & !1, plants, prefix: 0, decoys: vec![] }
+    });
+    prop_oneof![4 => proptest::collection::vec(one, 2..=6), 1 => proptest::collection::vec(strategy(ctx), 2..=4)].prop_map(|searches| SeqCase { searches }).boxed()
+}
+
 fn lens_of_interest() -> Vec<usize> {
     let mut v: Vec<usize> = (0..=96).collect();
     v.extend(8150..=8230);
@@ -157,7 +245,7 @@ fn lens_of_interest() -> Vec<usize> {
 pub fn enumerate(_: &Ctx) -> Box<dyn Iterator<Item = Case>> {
     let mut v = Vec::new();
     for len in lens_of_interest() {
-        v.push(Case { len, key: len as u64, plants: vec![], prefix: 0 });
+        v.push(Case { len, key: len as u64, plants: vec![], prefix: 0, decoys: vec![] });
         // a magic at every interesting position relative to this length and the window
         let mut pos: Vec<usize> = vec![0, 1, 4, 8, 16, 24];
         for d in 0..=16 {
@@ -176,7 +264,16 @@ pub fn enumerate(_: &Ctx) -> Box<dyn Iterator<Item = Case>> {
                 continue;
             }
             for l in [0u32, 16, (len.saturating_sub(p)) as u32, (len.saturating_sub(p) + 1) as u32, 1 << 31, u32::MAX] {
-                v.push(Case { len, key: (len * 31 + p) as u64, plants: vec![(p, l)], prefix: 0 });
+                v.push(Case { len, key: (len * 31 + p) as u64, plants: vec![(p, l)], prefix: 0, decoys: vec![] });
+            }
+        }
+    }
+    // look-alikes that are not the magic, alone and in front of a real header
+    for kind in 0..DECOYS.len() as u8 {
+        for len in [64usize, 200] {
+            for dp in [0usize, 8, 16, 32] {
+                v.push(Case { len, key: (len + dp) as u64 ^ 0xDEC, plants: vec![], prefix: 0, decoys: vec![(dp, kind)] });
+                v.push(Case { len, key: (len + dp) as u64 ^ 0xDEC, plants: vec![(48, 16)], prefix: 0, decoys: vec![(dp, kind)] });
             }
         }
     }
@@ -186,8 +283,8 @@ pub fn enumerate(_: &Ctx) -> Box<dyn Iterator<Item = Case>> {
         for len in [96usize, 4096, 9000] {
             for p in (8..128).step_by(8) {
                 if p + 16 <= len {
-                    v.push(Case { len, key: (len + p) as u64, plants: vec![(p, 16)], prefix });
-                    v.push(Case { len, key: (len + p) as u64, plants: vec![(p, (len - p + 1) as u32)], prefix });
+                    v.push(Case { len, key: (len + p) as u64, plants: vec![(p, 16)], prefix, decoys: vec![] });
+                    v.push(Case { len, key: (len + p) as u64, plants: vec![(p, (len - p + 1) as u32)], prefix, decoys: vec![] });
                 }
             }
         }
@@ -201,8 +298,10 @@ pub fn strategy(_: &Ctx) -> BoxedStrategy<Case> {
         any::<u64>(),
         proptest::collection::vec((any::<u16>(), 0u8..8, any::<u32>(), 0u8..8), 0..=3),
         prop_oneof![3 => Just(0u8), 2 => 1u8..PREFIXES.len() as u8],
+        proptest::collection::vec((any::<u16>(), 0u8..DECOYS.len() as u8), 0..=2),
     )
-        .prop_map(|(len, key, raw, prefix)| {
+        .prop_map(|(len, key, raw, prefix, dec)| {
+            let decoys = dec.into_iter().map(|(p, k)| (crate::gen::pick(p, len + 1) / 8 * 8, k)).collect();
             let plants = raw
                 .into_iter()
                 .map(|(p, pmode, l, lmode)| {
@@ -229,7 +328,7 @@ pub fn strategy(_: &Ctx) -> BoxedStrategy<Case> {
                     (pos, lw)
                 })
                 .collect();
-            Case { len, key, plants, prefix }
+            Case { len, key, plants, prefix, decoys }
         })
         .boxed()
 }
@@ -237,7 +336,7 @@ pub fn strategy(_: &Ctx) -> BoxedStrategy<Case> {
 pub fn subs() -> Vec<Box<dyn Sub>> {
     vec![Box::new(PropSub::<Case> {
         name: "find",
-        rule: "8-aligned buffers ending at a PROT_NONE page, marker background with accidental magics broken, 0..=3 planted magics, optionally starting with an ELF32/ELF64/PE/a.out file identification. Enumerated: for each identification a header at every aligned position of the first 128 bytes; every length 0..=96 and 8150..=8230 x magic positions {0,1,4,8,16,24, len-16..len, 8192-16..8192+16} x stored length {0, 16, exactly to the end, end+1, 2^31, 2^32-1}; generated: lengths to 16 KiB, aligned/misaligned/straddling positions, random lengths. Oracle: first magic inside min(len,8192) bytes decides: none => Ok(None); misaligned or length word/body outside the buffer => some Err; else exactly buffer[i..i+L] and index i; panic or fault is a violation. Non-trivial = a magic is present or the buffer is shorter than 8192; distinct by buffer hash",
+        rule: "8-aligned buffers ending at a PROT_NONE page, marker background with accidental magics broken, 0..=3 planted magics, optionally starting with an ELF32/ELF64/PE/a.out file identification, optionally with look-alikes that are not the magic (the header in big-endian byte order, the boot-information and Multiboot 1 magics, partial magics). Enumerated: for each identification a header at every aligned position of the first 128 bytes; every length 0..=96 and 8150..=8230 x magic positions {0,1,4,8,16,24, len-16..len, 8192-16..8192+16} x stored length {0, 16, exactly to the end, end+1, 2^31, 2^32-1}; generated: lengths to 16 KiB, aligned/misaligned/straddling positions, random lengths. Oracle: first magic inside min(len,8192) bytes decides: none => Ok(None); misaligned or length word/body outside the buffer => some Err; else exactly buffer[i..i+L] and index i; panic or fault is a violation. Non-trivial = a magic is present or the buffer is shorter than 8192; distinct by buffer hash",
         profiles: Profiles::Both,
         quick: 5000,
         thorough: 200000,
@@ -245,6 +344,17 @@ pub fn subs() -> Vec<Box<dyn Sub>> {
         enumerate: Some(enumerate),
         enum_exhaustive: false,
         eval,
+    }),
+    Box::new(PropSub::<SeqCase> {
+        name: "find-sequences",
+        rule: "2..=6 searches one after the other in the same process over different heap buffers (mostly short ones with one or two aligned headers at small offsets, so that an offset found earlier recurs later with another header in front of it). Oracle: every result equals the reference search of that buffer alone - the result of a search does not depend on earlier searches. Non-trivial = at least two searches, one of them successful; distinct by the sequence",
+        profiles: Profiles::Both,
+        quick: 20000,
+        thorough: 1000000,
+        strategy: strategy_seq,
+        enumerate: None,
+        enum_exhaustive: false,
+        eval: eval_seq,
     }),
     Box::new(super::fuzzsub::FuzzSub { target: "fuzz_find", name: "fuzz-find", runs: 4_000_000, max_len: 12000 })]
 }
